@@ -3,16 +3,16 @@
 
   For two states that differ only in their input buffers, the buffers agreeing on the first `n` bytes:
   either the two calls return the same code and related states (`Same2`), or BOTH have diverged (`Div2`): the cursor is
-  beyond `n`, or the call did not return LZMA_STREAM_END and, if it returned LZMA_OK, the decoder is starved (`Stv1`: cursor
-  at the end of its buffer, `Pending.stuck`), so that no later call can return LZMA_STREAM_END either.
+  beyond `n`, or the call did not return LZMA_STREAM_END and, if it returned LZMA_OK, the decoder is starved (`Stv1 n`: cursor
+  at or beyond `n`, `Pending.stuck`), so that no later call can return LZMA_STREAM_END either.
 -/
 import XzVerif.Lemmas.LzmaCausalRc
 
 namespace XzVerif.Lzma
 open XzVerif.RangeDec XzVerif.LzDict
 
-/-- starved LZMA1 decoder: at the end of its input, stuck inside a symbol / the init bytes -/
-def Stv1 (s : St) : Prop := s.inp.size ≤ s.inPos ∧ s.pending = .stuck
+/-- starved LZMA1 decoder: at or beyond the common prefix, stuck inside a symbol / the init bytes for lack of input -/
+def Stv1 (n : Nat) (s : St) : Prop := n ≤ s.inPos ∧ s.pending = .stuck
 
 def Same2 (n : Nat) (r r' : Ret × St) : Prop := r.1 = r'.1 ∧ Rel n r.2 r'.2
 
@@ -45,7 +45,7 @@ theorem rcReadInitN_mono : ∀ k s, s.inPos ≤ (resSt (rcReadInitN k s)).inPos
 /-- diverged `rc_read_init`: cursor beyond the common prefix, starved at the end of the buffer, or LZMA_DATA_ERROR for a byte
     that is looked at but not consumed -/
 def IDiv (n : Nat) (r : EStateM.Result Exit St Bool) : Prop :=
-  n < (resSt r).inPos ∨ (∃ t, r = .ok false t ∧ t.inp.size ≤ t.inPos) ∨ (∃ t, r = .error .dataError t)
+  n < (resSt r).inPos ∨ (∃ t, r = .ok false t ∧ n ≤ t.inPos) ∨ (∃ t, r = .error .dataError t)
 
 theorem rcReadInitN_div (n k : Nat) (v : St) (b : ByteArray) (hge : n ≤ v.inPos) :
     IDiv n (rcReadInitN (k + 1) (St.withInp v b)) := by
@@ -60,7 +60,7 @@ theorem rcReadInitN_div (n k : Nat) (v : St) (b : ByteArray) (hge : n ≤ v.inPo
       omega
   · rw [dif_neg hb]
     right; left
-    exact ⟨_, rfl, by show b.size ≤ v.inPos; omega⟩
+    exact ⟨_, rfl, hge⟩
 
 theorem rcReadInitN_rel : ∀ (k n : Nat) (s s' : St), Rel n s s' →
     MSame n (rcReadInitN k s) (rcReadInitN k s') ∨ (IDiv n (rcReadInitN k s) ∧ IDiv n (rcReadInitN k s'))
@@ -142,25 +142,25 @@ theorem lzmaFinish_same (n : Nat) (r r' : EStateM.Result Exit St Unit) (cl st : 
 
 theorem lzmaFinish_needInput (t : St) (cl st : Nat) (u : Option Nat) :
     (lzmaFinish (.error .needInput t) cl st u).1 = .ok ∧ (lzmaFinish (.error .needInput t) cl st u).2.pending = .stuck
-    ∧ (lzmaFinish (.error .needInput t) cl st u).2.inp = t.inp := by
+    ∧ (lzmaFinish (.error .needInput t) cl st u).2.inPos = t.inPos := by
   unfold lzmaFinish
   simp [exitRet, exitPending, resSt]
 
 theorem lzmaFinish_div (n : Nat) (r : EStateM.Result Exit St Unit) (cl st : Nat) (u : Option Nat) (h : MDiv n r) :
-    Div2 n Stv1 (lzmaFinish r cl st u) := by
+    Div2 n (Stv1 n) (lzmaFinish r cl st u) := by
   rcases h with h | ⟨t, rfl, hsz⟩
   · left; rw [lzmaFinish_inPos]; exact h
   · right
     have hf := lzmaFinish_needInput t cl st u
     refine ⟨by rw [hf.1]; simp, fun _ => ⟨?_, hf.2.1⟩⟩
-    rw [hf.2.2, lzmaFinish_inPos]
+    rw [hf.2.2]
     exact hsz
 
 /-- the part of `lzmaCall` after a complete `rc_read_init` -/
 def callTail (s : St) : Ret × St := lzmaFinish (lzmaRun s) s.dp.limit s.hist.size s.uncomp
 
 theorem callTail_rel (n : Nat) (s s' : St) (h : Rel n s s') :
-    Same2 n (callTail s) (callTail s') ∨ (Div2 n Stv1 (callTail s) ∧ Div2 n Stv1 (callTail s')) := by
+    Same2 n (callTail s) (callTail s') ∨ (Div2 n (Stv1 n) (callTail s) ∧ Div2 n (Stv1 n) (callTail s')) := by
   have hr := lzmaRun_rel n s s' h
   obtain ⟨v, b, b', rfl, rfl, hag⟩ := h
   unfold callTail
@@ -203,10 +203,10 @@ theorem lzmaCall_mono (s : St) : s.inPos ≤ (lzmaCall s).2.inPos := by
       | false => exact hm
       | true => exact Nat.le_trans hm (callTail_mono t)
 
-theorem lzmaCall_starved (s : St) (h : Stv1 s) : lzmaCall s = (.ok, s) := lzmaCall_stuck s h.2
+theorem lzmaCall_starved (n : Nat) (s : St) (h : Stv1 n s) : lzmaCall s = (.ok, s) := lzmaCall_stuck s h.2
 
 theorem lzmaCall_div (n : Nat) (s : St) (h : s.pending ≠ .stuck) (hd : IDiv n (rcReadInitN s.initLeft s)) :
-    Div2 n Stv1 (lzmaCall s) := by
+    Div2 n (Stv1 n) (lzmaCall s) := by
   rw [lzmaCall_not_stuck s h]
   cases hr : rcReadInitN s.initLeft s with
   | error e t =>
@@ -229,7 +229,7 @@ theorem lzmaCall_div (n : Nat) (s : St) (h : s.pending ≠ .stuck) (hd : IDiv n 
 
 /-- ONE CALL OF `lzma_decode` IS LOCAL IN THE INPUT. -/
 theorem lzmaCall_rel (n : Nat) (s s' : St) (h : Rel n s s') :
-    Same2 n (lzmaCall s) (lzmaCall s') ∨ (Div2 n Stv1 (lzmaCall s) ∧ Div2 n Stv1 (lzmaCall s')) := by
+    Same2 n (lzmaCall s) (lzmaCall s') ∨ (Div2 n (Stv1 n) (lzmaCall s) ∧ Div2 n (Stv1 n) (lzmaCall s')) := by
   have hri := rcReadInitN_rel s.initLeft n s s' h
   obtain ⟨v, b, b', rfl, rfl, hag⟩ := h
   by_cases hst : v.pending = .stuck
